@@ -1561,6 +1561,17 @@ func trCall(c *ast.CallExpr, en env) []val {
 				}
 				oracleEffects = append(oracleEffects, "(Eff."+ctor+" "+strings.Join(args, " ")+")")
 			}
+			for ai, pn := range o.outArgs {
+				u, ok := c.Args[ai].(*ast.UnaryExpr)
+				if !ok || u.Op != token.AND {
+					fail(c.Pos(), "argument %d of %s is expected to be the address of a variable", ai, fn)
+				}
+				id, ok := u.X.(*ast.Ident)
+				if !ok {
+					fail(c.Pos(), "argument %d of %s is expected to be the address of a variable", ai, fn)
+				}
+				pendingLocals[id.Name] = en.vars[pn]
+			}
 			var out []val
 			for _, r := range o.results {
 				if r == "@self" {
@@ -1732,14 +1743,21 @@ func effsExpr(en env) string {
 // absorb moves them into an environment
 var pendingState = map[string]val{}
 
+// pendingLocals: local variables a callee overwrote through a pointer argument
+var pendingLocals = map[string]val{}
+
 // pendingEffBase: the effect list returned by a call of `self` (it extends the list passed in)
 var pendingEffBase string
 
 func absorb(en env) env {
-	if len(oracleEffects) == 0 && len(pendingState) == 0 && pendingEffBase == "" {
+	if len(oracleEffects) == 0 && len(pendingState) == 0 && pendingEffBase == "" && len(pendingLocals) == 0 {
 		return en
 	}
 	e := en.clone()
+	for k, v := range pendingLocals {
+		e.vars[k] = v
+	}
+	pendingLocals = map[string]val{}
 	if pendingEffBase != "" {
 		e.effBase, e.effects = pendingEffBase, nil
 		pendingEffBase = ""
@@ -2094,7 +2112,12 @@ func bindResult(en *env, name string, v val, define bool, pos token.Pos) {
 		// alias: nil knowledge travels with the path
 	default:
 		n := fresh(name)
-		pendingLets = append(pendingLets, fmt.Sprintf("let %s := %s", n, v.lean))
+		if v.lean == "[]" {
+			// an empty literal has no type of its own (it may never be used)
+			pendingLets = append(pendingLets, fmt.Sprintf("let %s : %s := %s", n, leanType(v.kd), v.lean))
+		} else {
+			pendingLets = append(pendingLets, fmt.Sprintf("let %s := %s", n, v.lean))
+		}
 		v = val{lean: n, kd: v.kd, path: v.path}
 	}
 	if define {
@@ -3197,6 +3220,7 @@ func translate(sp *fnSpec, files map[string]*ast.File, srcs map[string][]byte) (
 	pendingLets = nil
 	oracleEffects = nil
 	pendingState = map[string]val{}
+	pendingLocals = map[string]val{}
 	pendingEffBase = ""
 	counter = 0
 	loopIndex = 0
